@@ -470,7 +470,8 @@ ATOMS = ("a/b", "dev-libs/foo", "=a/b-1.0", "=a/b-1.0-r1", "~a/b-1.0", ">=a/b-1.
          ">dev-libs/foo-1", "=a/b-1*", "=dev-libs/foo-1.0*", "a/b:0", "a/b:1", "a/b:0/2", "a/b:0=", "a/b:=",
          "a/b::gentoo", "a/b:0::other", "a/b[x]", "a/b[-x]", "a/b[x,y]", "a/b[y,x]", "a/b[x,-y]", "a/b[-y,x]",
          "a/b[x(+)]", "a/b[x(-)]", "a/b[-x(+),y(+)]", "a/b[-x(-),y(-)]", "a/b[x,y(+),-z(-)]", "a/b[y(+),-z(-),x]",
-         "=a/b-1.0[x,-w(+)]", "~dev-libs/foo-1.0:0[x]", "a/b[x,x]")
+         "=a/b-1.0[x,-w(+)]", "~dev-libs/foo-1.0:0[x]", "a/b[x,x]", "=a/b-1.0*", "=a/b-1.0-r1*", "=a/b-1-r0*",
+         "=dev-libs/foo-1.00*", "=a/b-1.0-r2", ">=a/b-1.0-r1", "<dev-libs/foo-1.00-r0", "=a/b-1.5-r0*", "=a/b-1*:0")
 
 
 def g_vals(rng, single_str_ok=True):
@@ -568,6 +569,39 @@ REQSETS = ("^^ ( x y )", "^^ ( y x )", "^^ ( x x y )", "^^ ( x y y )", "?? ( x y
            "|| ( x y )", "|| ( y x )", "|| ( x x y )", "x y", "y x", "x x y", "z? ( ^^ ( x y ) )",
            "z? ( ^^ ( y x ) )", "^^ ( x y ) ?? ( z w )", "?? ( z w ) ^^ ( x y )", "^^ ( x y ) ^^ ( x y )",
            "!x ^^ ( x y z )", "^^ ( z y x ) !x", "?? ( x ( y z ) )", "?? ( ( y z ) x )")
+
+
+import re as _re
+
+_ATOM_RE = _re.compile(r"^(!*)(<=|>=|[=<>~])([a-z-]+/[a-z]+)-([0-9][0-9a-z._]*)(-r[0-9]+)?(\*?)((?:[:\[].*)?)$")
+
+
+def respellings(text):
+    """other spellings of a versioned atom whose version compares equal under ver_cmp: a revision 0 written
+    -r0 / -r00 / not at all, -r1 written -r01, a later dotted component that starts with 0 given another zero"""
+    m = _ATOM_RE.match(text)
+    if not m:
+        return []
+    bang, op, name, ver, rev, star, rest = m.groups()
+    mk = lambda v, r: f"{bang}{op}{name}-{v}{r}{star}{rest}"  # noqa: E731
+    out = []
+    if op != "~":
+        if not rev:
+            out += [mk(ver, "-r0"), mk(ver, "-r00")]
+        else:
+            n = rev[2:]
+            out.append(mk(ver, "-r0" + n))
+            if n.startswith("0") and len(n) > 1:
+                out.append(mk(ver, "-r" + n[1:]))
+            if int(n) == 0:
+                out.append(mk(ver, ""))
+    parts = ver.split("_")[0].split(".")
+    tail = ver[len(ver.split("_")[0]):]
+    if len(parts) > 1 and parts[-1][:1] == "0" and parts[-1].isdigit():
+        out.append(mk(".".join(parts[:-1] + [parts[-1] + "0"]) + tail, rev or ""))
+        if len(parts[-1]) > 1 and parts[-1].endswith("0"):
+            out.append(mk(".".join(parts[:-1] + [parts[-1][:-1]]) + tail, rev or ""))
+    return [t for t in out if t != text]
 
 
 def swapcase_some(rng, s):
@@ -681,6 +715,9 @@ def variant(rng, s):
         return rng.choice([s, ("negate", variant(rng, s[1]))])
     if k == "atom":
         t = s[1]
+        resp = respellings(t)
+        if resp and rng.random() < 0.5:
+            return ("atom", rng.choice(resp), s[2])
         t = t.lstrip("!")
         opts = [s, s, flipat(s, 2), ("atom", "!" + t, s[2]), ("atom", "!!" + t, s[2]), ("atom", t, s[2])]
         if "[" in t:
@@ -814,6 +851,37 @@ WITNESSES = [
     (("reqset", "^^ ( x y ) ?? ( z w )"), ("reqset", "?? ( z w ) ^^ ( x y )"), 9),
     (("depset", "|| ( a/b a/b dev-libs/foo )"), ("depset", "|| ( dev-libs/foo a/b )"), 9),
     (("depset", "x? ( a/b dev-libs/foo a/b )"), ("depset", "x? ( dev-libs/foo a/b )"), 9),
+    # versions that compare equal under ver_cmp but are spelled differently (the glob uses the TEXT)
+    (("atom", "=a/b-1*", False), ("atom", "=a/b-1-r0*", False), 3),
+    (("atom", "=a/b-1-r0*", False), ("atom", "=a/b-1-r00*", False), 3),
+    (("atom", "=a/b-1.0*", False), ("atom", "=a/b-1.00*", False), 3),
+    (("atom", "=a/b-1.0-r1*", False), ("atom", "=a/b-1.0-r01*", False), 3),
+    (("atom", "=a/b-1.0*", False), ("atom", "=a/b-1.0-r0*", False), 3),
+    (("atom", "=dev-libs/foo-1.0*", False), ("atom", "=dev-libs/foo-1.00*", False), 3),
+    (("atom", "=a/b-1.5*", False), ("atom", "=a/b-1.5-r0*", False), 3),
+    (("atom", "=a/b-1*:0", False), ("atom", "=a/b-1-r0*:0", False), 3),
+    (("atom", "!=a/b-1.0*", False), ("atom", "!=a/b-1.00*", False), 3),
+    (("atom", "=a/b-1.0", False), ("atom", "=a/b-1.00", False), 3),
+    (("atom", "=a/b-1.0-r1", False), ("atom", "=a/b-1.0-r01", False), 3),
+    (("atom", "=a/b-1.0", False), ("atom", "=a/b-1.0-r00", False), 3),
+    (("atom", "<a/b-1.0", False), ("atom", "<a/b-1.00", False), 3),
+    (("atom", "<a/b-1.0-r1", False), ("atom", "<a/b-1.0-r01", False), 3),
+    (("atom", "<a/b-1.0", False), ("atom", "<a/b-1.0-r00", False), 3),
+    (("atom", "<=a/b-1.0", False), ("atom", "<=a/b-1.00", False), 3),
+    (("atom", "<=a/b-1.0-r1", False), ("atom", "<=a/b-1.0-r01", False), 3),
+    (("atom", "<=a/b-1.0", False), ("atom", "<=a/b-1.0-r00", False), 3),
+    (("atom", ">=a/b-1.0", False), ("atom", ">=a/b-1.00", False), 3),
+    (("atom", ">=a/b-1.0-r1", False), ("atom", ">=a/b-1.0-r01", False), 3),
+    (("atom", ">=a/b-1.0", False), ("atom", ">=a/b-1.0-r00", False), 3),
+    (("atom", ">a/b-1.0", False), ("atom", ">a/b-1.00", False), 3),
+    (("atom", ">a/b-1.0-r1", False), ("atom", ">a/b-1.0-r01", False), 3),
+    (("atom", ">a/b-1.0", False), ("atom", ">a/b-1.0-r00", False), 3),
+    (("atom", "~a/b-1.0", False), ("atom", "~a/b-1.00", False), 3),
+    (("atom", "~dev-libs/foo-1.0", False), ("atom", "~dev-libs/foo-1.00", False), 3),
+    (("atom", "=a/b-1.0*", True), ("atom", "=a/b-1.00*", True), 3),
+    (("depset", "=a/b-1* dev-libs/foo"), ("depset", "dev-libs/foo =a/b-1-r0*"), 9),
+    (("pnode", "or", False, (("atom", "=a/b-1*", False), ("cat", "dev-libs", False))),
+     ("pnode", "or", False, (("atom", "=a/b-1-r0*", False), ("cat", "dev-libs", False))), 3),
     (("atom", "=a/b-1.0", False), ("atom", "=a/b-1.0", True), 3),
     (("atom", ">=a/b-1.0", False), ("atom", ">=a/b-1.0", True), 3),
     (("atom", "~a/b-1.0", False), ("atom", "~a/b-1.0", True), 3),
